@@ -61,8 +61,17 @@ Spellings(o, cli) ==
                                           \cup (IF o.short /\ cli.v = <<2>> THEN {"cluster"} ELSE {}))  \* -vv
        \cup (IF o.abbrev THEN {"abbrev"} ELSE {})                                    \* --verbos  (argparse allow_abbrev)
 
-\* how the value is written in the file
+\* how the value is written in the file.
+\* twinDashed / twinAlias: the option stands TWICE in the file, under two of its spellings (key and --key; its two
+\* names): a repeatable option's items are split over the two (they accumulate in file order), a single-valued
+\* option has another value under the first spelling and file.v under the second (the last one wins) - "as on the
+\* command line".
+Twins(o, file) ==
+  IF ~file.has THEN {}
+  ELSE (IF (o.kind = "append" /\ Len(file.v) = 2) \/ (o.kind = "store" /\ file.v \in {<<1>>, <<2>>}) THEN {"twinDashed"} ELSE {})
+       \cup (IF o.kind = "append" /\ Len(file.v) = 2 /\ o.names >= 2 THEN {"twinAlias"} ELSE {})
 FileStyles(o, fmt, file) ==
+  Twins(o, file) \cup
   IF ~file.has THEN {"none"}
   ELSE IF fmt = "toml"
        THEN CASE o.kind = "store"  -> {"string"}     \* native: a bare TOML integer / float (0, 3, 12, 0.0)
